@@ -30,6 +30,11 @@ fn root() -> Cert {
     crate::tlscert::from_pem(&std::fs::read(certs_dir().join("ca.cert.pem")).unwrap()).unwrap()
 }
 
+/// the self-signed server certificate itself, added as a root ("pinning")
+fn pinned_root() -> Cert {
+    crate::tlscert::from_pem(&std::fs::read(certs_dir().join("selfsigned.cert.pem")).unwrap()).unwrap()
+}
+
 /// TLS server answering one HTTP request per connection
 fn tls_server(ident: &str) -> u16 {
     let acceptor = Arc::new(native_tls::TlsAcceptor::new(identity(ident)).unwrap());
@@ -189,8 +194,12 @@ fn tls_connect_proxy(target_port: u16) -> u16 {
 pub fn generate(_seed: u64, tier: &str, sink: &mut Sink) {
     let thorough = tier == "thorough";
     // (identity, chain ok given the root is added, time ok)
-    let chains = [("good", true, true), ("selfsigned", false, true), ("unknown", false, true), ("expired", true, false)];
-    let ports: Vec<u16> = chains.iter().map(|c| tls_server(c.0)).collect();
+    // "pinned": the server presents the self-signed certificate and the caller adds THAT certificate as
+    // a root. Backends differ on whether such a certificate is acceptable at all (OpenSSL: yes, webpki:
+    // a CA certificate is refused as end entity), so this row is judged one way only: it must never be
+    // accepted unless the name matches or a flag waives it.
+    let chains = [("good", true, true), ("selfsigned", false, true), ("unknown", false, true), ("expired", true, false), ("pinned", true, true)];
+    let ports: Vec<u16> = chains.iter().map(|c| tls_server(if c.0 == "pinned" { "selfsigned" } else { c.0 })).collect();
     let proxies: Vec<u16> = ports.iter().map(|p| connect_proxy(*p)).collect();
     let tls_proxies: Vec<u16> = ports.iter().map(|p| tls_connect_proxy(*p)).collect();
     std::thread::sleep(Duration::from_millis(50));
@@ -202,6 +211,9 @@ pub fn generate(_seed: u64, tier: &str, sink: &mut Sink) {
                         for mode in ["direct", "connect", "https-proxy"] {
                             for place in ["session", "request", "sibling"] {
                                 if !thorough && place == "sibling" && mode != "direct" && aic {
+                                    continue;
+                                }
+                                if mode == "https-proxy" && *chain == "pinned" {
                                     continue;
                                 }
                                 if !thorough && mode == "https-proxy" && (place == "request" || (*chain == "unknown")) {
@@ -228,7 +240,7 @@ pub fn generate(_seed: u64, tier: &str, sink: &mut Sink) {
                                         sess.danger_accept_invalid_certs(aic);
                                         sess.danger_accept_invalid_hostnames(aih);
                                         if root_added {
-                                            sess.add_root_certificate(root());
+                                            sess.add_root_certificate(if *chain == "pinned" { pinned_root() } else { root() });
                                         }
                                         eff_aic = aic;
                                         eff_aih = aih;
@@ -238,7 +250,7 @@ pub fn generate(_seed: u64, tier: &str, sink: &mut Sink) {
                                     "request" => {
                                         let mut rb = sess.get(&url).danger_accept_invalid_certs(aic).danger_accept_invalid_hostnames(aih);
                                         if root_added {
-                                            rb = rb.add_root_certificate(root());
+                                            rb = rb.add_root_certificate(if *chain == "pinned" { pinned_root() } else { root() });
                                         }
                                         eff_aic = aic;
                                         eff_aih = aih;
@@ -249,7 +261,7 @@ pub fn generate(_seed: u64, tier: &str, sink: &mut Sink) {
                                         // set on a sibling request and on a clone: must not reach this request
                                         let mut sib = sess.get(&url).danger_accept_invalid_certs(aic).danger_accept_invalid_hostnames(aih);
                                         if root_added {
-                                            sib = sib.add_root_certificate(root());
+                                            sib = sib.add_root_certificate(if *chain == "pinned" { pinned_root() } else { root() });
                                         }
                                         let mut clone = sess.clone();
                                         clone.danger_accept_invalid_certs(aic);
@@ -279,7 +291,8 @@ pub fn generate(_seed: u64, tier: &str, sink: &mut Sink) {
                                 // matches its name: it verifies iff the root was added or invalid certs are accepted
                                 let proxy_ok = mode != "https-proxy" || eff_root || eff_aic;
                                 let want = origin_ok && proxy_ok;
-                                let o = if accepted == want {
+                                let pinned = *chain == "pinned";
+                                let o = if accepted == want || (pinned && !accepted) {
                                     Ok(())
                                 } else if accepted {
                                     let why = if !chain_ok { "untrusted-chain" } else if !*time_ok { "expired" } else { "wrong-name" };
@@ -289,8 +302,8 @@ pub fn generate(_seed: u64, tier: &str, sink: &mut Sink) {
                                 };
                                 sink.push(Case {
                                     tags: vec![format!("backend={}", crate::tlscert::backend()), format!("chain={}", chain), format!("name_ok={}", name_ok), format!("aic={}", aic), format!("aih={}", aih), format!("root={}", root_added), format!("mode={}", mode), format!("set_on={}", place), format!("expect={}", if want { "accept" } else { "reject" })],
-                                    op: format!("tls {} {} {} {} {}", eff_aic as u8, eff_aih as u8, chain_ok as u8, *time_ok as u8, name_ok as u8),
-                                    impl_line: if accepted { "accept".into() } else { "reject".into() },
+                                    op: if pinned { "nop pinned".to_string() } else { format!("tls {} {} {} {} {}", eff_aic as u8, eff_aih as u8, chain_ok as u8, *time_ok as u8, name_ok as u8) },
+                                    impl_line: if pinned { "nop".into() } else if accepted { "accept".into() } else { "reject".into() },
                                     oracle: o,
                                 });
                             }
